@@ -232,3 +232,37 @@ def pre_checks(ctx):
         if gitdir:
             subprocess.run(["rm", "-rf", gitdir])
     return out
+
+
+def coq_cases(cases):
+    """release_valid / release_git_object (+ Sha1.sha1 of the manifest) evaluated by vm_compute inside Coq vs the
+    extracted driver (extraction cross-check)"""
+    from . import core
+    def size(c):
+        return sum(len(c[k]) // 2 for k in ("name", "message", "author") if c[k] is not None)
+    cases[:] = [c for c in cases if size(c) <= 200]      # in place: the evidence's `n` is the number evaluated
+    tt = {"content": "RContent", "directory": "RDirectory", "revision": "RRevision", "release": "RRelease", "snapshot": "RSnapshot"}
+    def nl(h):
+        return "[" + "; ".join("%d" % b for b in bytes.fromhex(h)) + "]%N"
+    def opt(h, f=nl):
+        return "None" if h is None else "(Some %s)" % f(h)
+    def person(h):
+        return "{| fullname := %s; p_name := None; p_email := None |}" % nl(h)
+    def date(d):
+        return "{| ts := {| seconds := (%d)%%Z; microseconds := (%d)%%Z |}; offset_bytes := %s |}" % (d[0], d[1], nl(d[2]))
+    def rel(c):
+        return ("{| r_name := %s; r_message := %s; r_target := %s; r_ttype := %s; r_synthetic := false; r_author := %s; "
+                "r_date := %s; r_metadata := None; r_raw_manifest := None |}"
+                % (nl(c["name"]), opt(c["message"]), opt(c["target"]), tt[c["ttype"]], opt(c["author"], person), opt(c["date"], date)))
+    src = ("From Coq Require Import List NArith ZArith.\nFrom SWH.lib Require Import Bytes Sha1.\nFrom SWH.model Require Import Time Rel.\n"
+           "Import ListNotations.\n" + core.COQ_CHECKSUM +
+           "\nDefinition cases : list release := [" + ";\n ".join(rel(c) for c in cases) + "].\n"
+           "Eval vm_compute in map (fun r => if release_valid r then match release_git_object r with MOk m => cksum (m ++ sha1 m) "
+           "| MTypeError => 2%N | MValueError => 1%N end else 1%N) cases.\n")
+    resp = core.run_driver(ID, [" ".join(["rel", hx(bytes.fromhex(c["name"])), enc_opt(c["message"]), enc_opt(c["target"]), TCODE[c["ttype"]],
+                                          enc_opt(c["author"]), enc_date(c["date"])]) for c in cases])
+    exp = []
+    for r in resp:
+        w = r.split(" ")
+        exp.append(core.py_cksum(unhx(w[1]) + unhx(w[2])) if w[0] == "ok" else {"err ValueError": 1, "err TypeError": 2}.get(r, 3))
+    return src, exp
